@@ -104,10 +104,12 @@ void account(const verif::Case &c, int verdict) {
 // (cases are pure functions of their bytes).
 int run_case(const uint8_t *d, size_t n, bool force_text, verif::Case &c) {
     g_cur_data = d; g_cur_size = n;
+    verif::case_environment(d, n);
     arm_watchdog(20);
     c.want_text = force_text;
     int v = verif_case(d, n, c);
     arm_watchdog(0);
+    if (force_text && verif::g_misalign) c.text += " [exact-size input copies start " + std::to_string(verif::g_misalign) + " byte(s) past a 16-byte boundary]";
     account(c, v);
     if (v == verif::CASE_OK && !force_text && c.nontrivial && S.samples.size() < 24) {
         // sample policy: first nontrivial case of each not-yet-sampled label, spread over the run
@@ -175,7 +177,7 @@ bool argflag(int argc, char **argv, const char *name) {
 namespace verif {
 // used by enumerators to name the case being executed (for crash/hang files)
 volatile unsigned long g_generation = 0;      // bumped by set_current: progress indicator for the enumerators' watchdog
-void set_current(const uint8_t *d, size_t n) { g_cur_data = d; g_cur_size = n; g_generation = g_generation + 1; }
+void set_current(const uint8_t *d, size_t n) { g_cur_data = d; g_cur_size = n; g_generation = g_generation + 1; case_environment(d, n); }
 }
 
 namespace {
@@ -297,6 +299,7 @@ int main(int argc, char **argv) {
                 verif::Case c2; c2.want_text = true;
                 verif_case(copy.data(), copy.size(), c2);
                 S.failure = c2.failure.empty() ? c.failure : c2.failure; S.failing_text = c2.text;
+                if (verif::g_misalign) S.failing_text += " [exact-size input copies start " + std::to_string(verif::g_misalign) + " byte(s) past a 16-byte boundary]";
                 if (!g_replay_out.empty()) write_file_raw(g_replay_out.c_str(), copy.data(), copy.size());
                 RC_FAIL(S.failure);
             }
